@@ -2,6 +2,11 @@
 monitors evaluated on the implementation's observations, and the meaning of monitor violation codes."""
 
 KNOWN_CODES = {
+    101: 'a promise row disappeared, its creation fields / sort id changed, a completed row changed, or a pending row moved to a non-final state',
+    102: 'two promise rows with one id',
+    103: 'a response shows a promise body that differs from the durable row',
+    104: 'a new promise row that is neither fresh-pending nor completed',
+    105: 'a dispatched message carries a promise body that differs from the durable row',
     901: 'two lock rows for one resource',
     902: 'a lock row disappeared or changed although its lease had not run out on the server clock and its holder did nothing',
     903: 'a lock row appeared that no acquire created, or a heartbeat did more than extend a lease',
@@ -9,6 +14,14 @@ KNOWN_CODES = {
 }
 
 PROPS = {
+    'C01': {
+        'families': [('promise-race', 'sys', 100, 1000), ('promises', 'sys', 100, 1000), ('promises-crash', 'sys', 50, 500), ('tasks', 'sys', 50, 500)],
+        'monitors': ['C01_mon'],
+        'statement': 'forall cfg sch, sch_wf sch -> C01_mon (events cfg sch) = []  (Props/C01.v)',
+        'assumptions': ['arriving CompletePromise requests name resolved/rejected/canceled (what both front ends let through)'],
+        'level_text': 'Theorem C01_holds: for every schedule of well-formed requests (all interleavings, batchings, before/after-commit failures, crash points) the executable C01 monitor finds nothing: rows only grow (creation fields and sort id fixed, completed rows frozen, pending rows complete at most once to a final state), ids unique, and every promise body in every response and dispatched message equals the durable row. Store-level monotonicity theorem for arbitrary accepted command sequences. Tied to the code by replaying scripted schedules of the real coroutines + SQLite on the model and evaluating the same monitor on what the implementation showed.',
+        'level_note': 'Trusted: Coq kernel + vm_compute; harness/emitter; hand-written model of the Go coroutines (observation equality on explored schedules only); SQLite. No axioms.',
+    },
     'C09': {
         'families': [('locks', 'sys', 150, 1500)],
         'monitors': ['C09_mon'],
